@@ -69,6 +69,15 @@ def _collect(tree):
                     if st.targets[0].id == '__slots__':
                         continue
                     v = st.value
+                    if isinstance(v, ast.Call) and isinstance(v.func, ast.Name) and v.func.id == 'property' and len(v.args) == 1 and not v.keywords and isinstance(v.args[0], ast.Lambda) \
+                            and len(v.args[0].args.args) == 1 and not v.args[0].args.defaults and not v.args[0].args.vararg and not v.args[0].args.kwarg:
+                        # name = property(lambda self: E): a read-only property written as an expression
+                        lam = v.args[0]
+                        fn = ast.FunctionDef(name=st.targets[0].id, args=lam.args, body=[ast.Return(value=lam.body)], decorator_list=[ast.Name(id='property', ctx=ast.Load())], returns=None, type_params=[])
+                        ast.copy_location(fn, st)
+                        ast.fix_missing_locations(fn)
+                        c.methods[fn.name] = (fn, 'property')
+                        continue
                     if isinstance(v, ast.Call) and isinstance(v.func, ast.Name) and v.func.id == 'staticmethod' and len(v.args) == 1 and not v.keywords:
                         v = v.args[0]
                     if not _const_value(v):
